@@ -5,16 +5,52 @@ From Coq Require Import ZArith List Bool Arith Lia.
 Import ListNotations.
 Require Import PonyV.Model.C04Expr PonyV.Model.C04Ext PonyV.Proofs.C04Parse.
 
+Lemma kids_nth : forall (mk : list str -> expr -> atree) l ctx cs k i,
+  nth_error (mark_kids mk l ctx k cs) i = option_map (mk (child_ctx l ctx (k + i))) (nth_error cs i).
+Proof.
+  intros mk l ctx cs. induction cs as [|c cs IH]; intros k i; [destruct i; reflexivity|].
+  destruct i as [|i]; simpl.
+  - rewrite Nat.add_0_r. reflexivity.
+  - rewrite IH. replace (S k + i) with (k + S i) by lia. reflexivity.
+Qed.
+
+Lemma kids_uniform : forall (mk : list str -> expr -> atree) l ctx c0 cs k,
+  (forall j, child_ctx l ctx j = c0) -> mark_kids mk l ctx k cs = map (mk c0) cs.
+Proof.
+  intros mk l ctx c0 cs. induction cs as [|c cs IH]; intros k H; [reflexivity|]. simpl. rewrite H, IH by exact H. reflexivity.
+Qed.
+
+Lemma kids_in : forall (mk : list str -> expr -> atree) l ctx cs k a,
+  In a (mark_kids mk l ctx k cs) -> exists c j, In c cs /\ a = mk (child_ctx l ctx j) c.
+Proof.
+  intros mk l ctx cs. induction cs as [|c cs IH]; intros k a H; [destruct H|].
+  simpl in H. destruct H as [<-|H].
+  - exists c, k. split; [left; reflexivity|reflexivity].
+  - destruct (IH (S k) a H) as [c' [j [Hin E]]]. exists c', j. split; [right; exact Hin|exact E].
+Qed.
+
+Lemma kids_length : forall (mk : list str -> expr -> atree) l ctx cs k, length (mark_kids mk l ctx k cs) = length cs.
+Proof. intros mk l ctx cs. induction cs as [|c cs IH]; intros k; [reflexivity|]. simpl. rewrite IH. reflexivity. Qed.
+
+Lemma wf_mwf : forall e, wf e = true -> mwf e = true.
+Proof.
+  induction e as [l cs IH] using expr_ind'. intros Hw. simpl in Hw. apply andb_prop in Hw. destruct Hw as [Hw Hwk]. apply andb_prop in Hw. destruct Hw as [Har _].
+  cbn [mwf]. apply andb_true_intro. split.
+  - destruct l; try reflexivity; try exact Har; try discriminate Har.
+    destruct lo, hi, st; try reflexivity. exact Har.
+  - apply forallb_forall. intros c Hc. rewrite Forall_forall in IH. rewrite forallb_forall in Hwk. apply IH; [exact Hc|apply Hwk; exact Hc].
+Qed.
+
 Section Marking.
 Variable fclass : list str -> callclass.
 
 Lemma mark_node : forall ctx l cs, exists e1 c0 r0,
-  mark fclass ctx (Node l cs) = ANode l e1 c0 r0 (map (mark fclass (match l with LLambda args => args ++ ctx | _ => ctx end)) cs)
+  mark fclass ctx (Node l cs) = ANode l e1 c0 r0 (mark_kids (mark fclass) l ctx 0 cs)
   /\ (e1 = Some true ->
-        fst (fst (post fclass ctx l cs (map (mark fclass (match l with LLambda args => args ++ ctx | _ => ctx end)) cs))) = Some true
-        \/ (fst (fst (post fclass ctx l cs (map (mark fclass (match l with LLambda args => args ++ ctx | _ => ctx end)) cs))) = None
+        fst (fst (post fclass ctx l cs (mark_kids (mark fclass) l ctx 0 cs))) = Some true
+        \/ (fst (fst (post fclass ctx l cs (mark_kids (mark fclass) l ctx 0 cs))) = None
             /\ has_children l (length cs) = true /\ hidden_child_blocks l = false
-            /\ forallb ext_child (map (mark fclass (match l with LLambda args => args ++ ctx | _ => ctx end)) cs) = true)).
+            /\ forallb ext_child (mark_kids (mark fclass) l ctx 0 cs) = true)).
 Proof.
   intros ctx l cs. cbn [mark].
   destruct (post fclass ctx l cs _) as [[e0 c0] r0] eqn:E. cbn [fst].
@@ -38,20 +74,19 @@ Proof.
 Qed.
 
 (* a node marked external (before the final pass) mentions nothing of its context and contains no lambda *)
-Lemma ext_true_sound : forall e ctx, wf e = true ->
+Lemma ext_true_sound : forall e ctx, mwf e = true ->
   a_ext (mark fclass ctx e) = Some true -> mentions ctx e = false /\ lambda_free e = true.
 Proof.
   induction e as [l cs IH] using expr_ind'. intros ctx Hw He.
   destruct (mark_node ctx l cs) as [e1 [c0 [r0 [Em Hc]]]]. rewrite Em in He. simpl in He. subst e1.
   specialize (Hc eq_refl).
-  simpl in Hw. apply andb_prop in Hw. destruct Hw as [Hw Hwk]. apply andb_prop in Hw. destruct Hw as [Har _].
+  cbn [mwf] in Hw. apply andb_prop in Hw. destruct Hw as [Har Hwk].
   (* all children are external: the conclusion follows from the induction hypothesis *)
-  assert (Kids : l <> LName [] -> (forall s, l <> LName s) -> (forall a, l <> LLambda a) ->
-                 forallb ext_child (map (mark fclass ctx) cs) = true -> mentions ctx (Node l cs) = false /\ lambda_free (Node l cs) = true).
-  { intros _ Hn Hl Hall. rewrite mentions_node. cbn [lambda_free].
+  assert (Kids : (forall s, l <> LName s) -> (forall a, l <> LLambda a) -> (forall j, child_ctx l ctx j = ctx) ->
+                 forallb ext_child (mark_kids (mark fclass) l ctx 0 cs) = true -> mentions ctx (Node l cs) = false /\ lambda_free (Node l cs) = true).
+  { intros Hn Hl Hu Hall. rewrite (kids_uniform (mark fclass) l ctx ctx cs 0 Hu) in Hall. rewrite mentions_node. cbn [lambda_free].
     assert (Hk : forall c, In c cs -> mentions ctx c = false /\ lambda_free c = true).
     { intros c Hin. rewrite Forall_forall in IH. rewrite forallb_forall in Hwk.
-      assert (Lm : (match l with LLambda args => args ++ ctx | _ => ctx end) = ctx) by (destruct l; try reflexivity; exfalso; eapply Hl; reflexivity).
       rewrite forallb_forall in Hall.
       apply (IH c Hin ctx (Hwk c Hin)).
       apply ext_child_ext. apply Hall. apply in_map. exact Hin. }
@@ -61,16 +96,14 @@ Proof.
       apply existsb_exists in Ex. destruct Ex as [c [Hin Hc']]. destruct (Hk c Hin) as [H1 _]. congruence.
     - assert (E2 : match l with LLambda _ => false | _ => true end = true) by (destruct l; try reflexivity; exfalso; eapply Hl; reflexivity).
       rewrite E2. simpl. apply forallb_forall. intros c Hin. apply (Hk c Hin). }
+  assert (Nil : (length cs =? 0) = true -> cs = []) by (intros H; destruct cs; [reflexivity|discriminate H]).
   destruct l.
-  - (* Name *) destruct cs; [|discriminate Har]. cbn in Hc. rewrite mentions_node. cbn.
+  - (* Name *) rewrite (Nil Har) in *. cbn in Hc. rewrite mentions_node. cbn.
     destruct (mem s ctx); [|auto]. destruct Hc as [Hc|[_ [Hc _]]]; discriminate Hc.
-  - (* Const *) destruct cs; [|discriminate Har]. auto.
-  - discriminate Har.
+  - (* Const *) rewrite (Nil Har). auto.
+  - (* negative constant *) rewrite (Nil Har). auto.
   - (* LOp k *)
-    assert (NoLam : forall a, LOp k <> LLambda a) by (intros a E; discriminate E).
-    assert (NoName : forall s, LOp k <> LName s) by (intros s E; discriminate E).
-    assert (N0 : LOp k <> LName []) by (intros E; discriminate E).
-    assert (All : forallb ext_child (map (mark fclass ctx) cs) = true).
+    assert (All : forallb ext_child (mark_kids (mark fclass) (LOp k) ctx 0 cs) = true).
     { destruct Hc as [Hc|[_ [_ [_ Hc]]]]; [|exact Hc].
       destruct k; cbn in Hc; try discriminate Hc.
       - (* Call: post never returns Some true *)
@@ -78,21 +111,25 @@ Proof.
         destruct (is_true (a_ext (mark fclass ctx f))); [|discriminate Hc].
         destruct (dotted f) as [p|]; [|discriminate Hc]. destruct (fclass p); discriminate Hc.
       - (* the empty list display *) destruct cs; [reflexivity|discriminate Hc]. }
-    apply Kids; assumption.
-  - (* Compare *) apply Kids; try (intros; discriminate). destruct Hc as [Hc|[_ [_ [_ Hc]]]]; [discriminate Hc|exact Hc].
+    apply Kids; try (intros; discriminate); [intros j; reflexivity|exact All].
+  - (* Compare *) apply Kids; try (intros; discriminate); [intros j; reflexivity|]. destruct Hc as [Hc|[_ [_ [_ Hc]]]]; [discriminate Hc|exact Hc].
   - (* Lambda *) destruct Hc as [Hc|[_ [_ [Hc _]]]]; discriminate Hc.
-  - (* Attribute *) apply Kids; try (intros; discriminate). destruct Hc as [Hc|[_ [_ [_ Hc]]]]; [discriminate Hc|exact Hc].
-  - (* Keyword *) apply Kids; try (intros; discriminate). destruct Hc as [Hc|[_ [_ [_ Hc]]]]; [cbn in Hc; discriminate Hc|exact Hc].
-  - (* Slice *) destruct lo, hi, st; try (apply Kids; try (intros; discriminate); destruct Hc as [Hc|[_ [_ [_ Hc]]]]; [discriminate Hc|exact Hc]).
-    simpl in Har. apply Nat.eqb_eq in Har. destruct cs; [auto|discriminate Har].
-  - (* Joined *) apply Kids; try (intros; discriminate). destruct Hc as [Hc|[_ [_ [_ Hc]]]]; [discriminate Hc|exact Hc].
-  - (* Formatted *) apply Kids; try (intros; discriminate). destruct Hc as [Hc|[_ [_ [_ Hc]]]]; [discriminate Hc|exact Hc].
+  - (* Attribute *) apply Kids; try (intros; discriminate); [intros j; reflexivity|]. destruct Hc as [Hc|[_ [_ [_ Hc]]]]; [discriminate Hc|exact Hc].
+  - (* Keyword *) apply Kids; try (intros; discriminate); [intros j; reflexivity|]. destruct Hc as [Hc|[_ [_ [_ Hc]]]]; [cbn in Hc; discriminate Hc|exact Hc].
+  - (* Slice *) destruct lo, hi, st; try (apply Kids; try (intros; discriminate); [intros j; reflexivity|]; destruct Hc as [Hc|[_ [_ [_ Hc]]]]; [discriminate Hc|exact Hc]).
+    rewrite (Nil Har). auto.
+  - (* Joined *) apply Kids; try (intros; discriminate); [intros j; reflexivity|]. destruct Hc as [Hc|[_ [_ [_ Hc]]]]; [discriminate Hc|exact Hc].
+  - (* Formatted *) apply Kids; try (intros; discriminate); [intros j; reflexivity|]. destruct Hc as [Hc|[_ [_ [_ Hc]]]]; [discriminate Hc|exact Hc].
+  - (* Dict *) apply Kids; try (intros; discriminate); [intros j; reflexivity|]. destruct Hc as [Hc|[_ [_ [_ Hc]]]]; [|exact Hc].
+    cbn in Hc. destruct cs; [reflexivity|discriminate Hc].
+  - (* Set *) apply Kids; try (intros; discriminate); [intros j; reflexivity|]. destruct Hc as [Hc|[_ [_ [_ Hc]]]]; [discriminate Hc|exact Hc].
+  - (* generator expression: never external *) destruct Hc as [Hc|[_ [_ [Hc _]]]]; discriminate Hc.
 Qed.
 
 (* ------------------------------------------------------------------ paths *)
 
 Lemma a_kids_mark : forall ctx l cs,
-  a_kids (mark fclass ctx (Node l cs)) = map (mark fclass (match l with LLambda args => args ++ ctx | _ => ctx end)) cs.
+  a_kids (mark fclass ctx (Node l cs)) = mark_kids (mark fclass) l ctx 0 cs.
 Proof. intros. destruct (mark_node ctx l cs) as [e1 [c0 [r0 [Em _]]]]. rewrite Em. reflexivity. Qed.
 
 Lemma a_label_mark : forall ctx e, a_label (mark fclass ctx e) = match e with Node l _ => l end.
@@ -103,23 +140,23 @@ Lemma asub_mark : forall p ctx e c' s, sub_ctx ctx e p = Some (c', s) -> asub (m
 Proof.
   induction p as [|i p IH]; intros ctx e c' s H.
   - simpl in H. injection H as <- <-. reflexivity.
-  - destruct e as [l cs]. simpl in H. cbn [asub]. rewrite a_kids_mark. rewrite nth_error_map.
+  - destruct e as [l cs]. simpl in H. cbn [asub]. rewrite a_kids_mark. rewrite kids_nth.
     destruct (nth_error cs i) as [c|]; [|discriminate H]. simpl. apply IH. exact H.
 Qed.
 
 Lemma asub_none : forall p ctx e, sub_ctx ctx e p = None -> asub (mark fclass ctx e) p = None.
 Proof.
   induction p as [|i p IH]; intros ctx e H; [discriminate H|].
-  destruct e as [l cs]. simpl in H. cbn [asub]. rewrite a_kids_mark. rewrite nth_error_map.
+  destruct e as [l cs]. simpl in H. cbn [asub]. rewrite a_kids_mark. rewrite kids_nth.
   destruct (nth_error cs i) as [c|]; [|reflexivity]. simpl. apply IH. exact H.
 Qed.
 
-Lemma sub_wf : forall p ctx e c' s, sub_ctx ctx e p = Some (c', s) -> wf e = true -> wf s = true.
+Lemma sub_mwf : forall p ctx e c' s, sub_ctx ctx e p = Some (c', s) -> mwf e = true -> mwf s = true.
 Proof.
   induction p as [|i p IH]; intros ctx e c' s H Hw.
   - simpl in H. injection H as <- <-. exact Hw.
   - destruct e as [l cs]. simpl in H. destruct (nth_error cs i) as [c|] eqn:E; [|discriminate H].
-    simpl in Hw. apply andb_prop in Hw. destruct Hw as [_ Hw]. rewrite forallb_forall in Hw.
+    cbn [mwf] in Hw. apply andb_prop in Hw. destruct Hw as [_ Hw]. rewrite forallb_forall in Hw.
     eapply IH; [exact H|]. apply Hw. eapply nth_error_In; eauto.
 Qed.
 
@@ -175,14 +212,14 @@ Proof.
   - apply (Below p Hin).
 Qed.
 
-Lemma narrow_mark : forall e ctx, wf e = true -> narrow (mark fclass ctx e) = true.
+Lemma narrow_mark : forall e ctx, mwf e = true -> narrow (mark fclass ctx e) = true.
 Proof.
   induction e as [l cs IH] using expr_ind'. intros ctx Hw.
   destruct (mark_node ctx l cs) as [e1 [c0 [r0 [Em _]]]]. rewrite Em. cbn [narrow].
-  simpl in Hw. apply andb_prop in Hw. destruct Hw as [Hw Hwk]. apply andb_prop in Hw. destruct Hw as [Har _].
+  cbn [mwf] in Hw. apply andb_prop in Hw. destruct Hw as [Har Hwk].
   apply andb_true_intro. split.
-  - destruct l; try reflexivity. rewrite map_length. simpl in Har. apply Nat.eqb_eq in Har. rewrite Har. reflexivity.
-  - rewrite forallb_forall. intros a Ha. apply in_map_iff in Ha. destruct Ha as [c [<- Hc]].
+  - destruct l; try reflexivity. rewrite kids_length. apply Nat.eqb_eq in Har. rewrite Har. reflexivity.
+  - rewrite forallb_forall. intros a Ha. destruct (kids_in _ _ _ _ _ _ Ha) as [c [j [Hc ->]]].
     rewrite Forall_forall in IH. rewrite forallb_forall in Hwk. apply IH; [exact Hc|apply Hwk; exact Hc].
 Qed.
 
@@ -214,14 +251,14 @@ Qed.
    that holds where it stands (query variables plus parameters of enclosing lambdas), mentions none of those names and contains no
    lambda: evaluating it in the caller's scope is meaningful. *)
 Theorem externals_sound : forall ctx e p c' s,
-  wf e = true ->
+  mwf e = true ->
   In p (externals fclass ctx e) -> sub_ctx ctx e p = Some (c', s) ->
   mentions c' s = false /\ lambda_free s = true.
 Proof.
   intros ctx e p c' s Hw Hin Hs. unfold externals in Hin.
   pose proof (final_points _ p (narrow_mark e ctx Hw) Hin) as Hp. unfold points_ext in Hp.
   rewrite (asub_mark p ctx e c' s Hs) in Hp.
-  apply (ext_true_sound s c' (sub_wf p ctx e c' s Hs Hw)). exact Hp.
+  apply (ext_true_sound s c' (sub_mwf p ctx e c' s Hs Hw)). exact Hp.
 Qed.
 
 (* ------------------------------------------------------------------ maximality *)
@@ -231,9 +268,9 @@ Qed.
 Fixpoint markable (e : expr) : bool :=
   match e with Node l cs =>
     match l with
-    | LLambda _ => false
+    | LLambda _ | LGen _ => false
     | LFormatted _ (Some []) => false
-    | LName _ | LConst _ | LNegConst _ => true
+    | LName _ | LConst _ | LNegConst _ | LDict => true
     | LSlice false false false => true
     | LOp KList => true
     | LOp KCall => match cs with
@@ -250,15 +287,15 @@ Proof.
   induction e as [l cs IH] using expr_ind'. intros ctx Hm Hn.
   cbn [markable] in Hm. apply andb_prop in Hm. destruct Hm as [Hm Hmk].
   rewrite mentions_node in Hn. apply orb_false_iff in Hn. destruct Hn as [Hn1 Hn2].
-  assert (NL : (match l with LLambda args => args ++ ctx | _ => ctx end) = ctx) by (destruct l; try reflexivity; discriminate Hm).
-  assert (Kids : forallb ext_child (map (mark fclass ctx) cs) = true).
-  { rewrite forallb_forall. intros a Ha. apply in_map_iff in Ha. destruct Ha as [c [<- Hc]].
+  assert (NL : forall j, child_ctx l ctx j = ctx) by (intros j; destruct l; try reflexivity; discriminate Hm).
+  assert (Kids : forallb ext_child (mark_kids (mark fclass) l ctx 0 cs) = true).
+  { rewrite (kids_uniform (mark fclass) l ctx ctx cs 0 NL). rewrite forallb_forall. intros a Ha. apply in_map_iff in Ha. destruct Ha as [c [<- Hc]].
     rewrite Forall_forall in IH. rewrite forallb_forall in Hmk.
     assert (Hcn : mentions ctx c = false).
     { destruct (mentions ctx c) eqn:E; [|reflexivity]. assert (existsb (mentions ctx) cs = true) by (apply existsb_exists; exists c; auto). congruence. }
     destruct (IH c Hc ctx (Hmk c Hc) Hcn) as [H1 H2]. unfold ext_child. rewrite H1, H2. reflexivity. }
-  cbn [mark]. rewrite NL.
-  destruct (post fclass ctx l cs (map (mark fclass ctx) cs)) as [[e0 c0] r0] eqn:Ep. cbn [a_ext a_raw].
+  cbn [mark].
+  destruct (post fclass ctx l cs (mark_kids (mark fclass) l ctx 0 cs)) as [[e0 c0] r0] eqn:Ep. cbn [a_ext a_raw].
   assert (Hpost : (e0 = Some true \/ (e0 = None /\ has_children l (length cs) = true /\ hidden_child_blocks l = false)) /\ r0 = false).
   { destruct l; cbn in Ep.
     - rewrite Hn1 in Ep. injection Ep as <- <- <-. auto.
@@ -285,7 +322,12 @@ Proof.
     - destruct lo, hi, st; injection Ep as <- <- <-; (split; [|reflexivity]);
         first [left; reflexivity | right; split; [reflexivity|split; [exact Hm|reflexivity]]].
     - injection Ep as <- <- <-. split; [right; split; [reflexivity|split; [exact Hm|reflexivity]]|reflexivity].
-    - injection Ep as <- <- <-. split; [|reflexivity]. right. split; [reflexivity|]. destruct spec as [[|z sp]|]; try discriminate Hm; split; try exact Hm; reflexivity. }
+    - injection Ep as <- <- <-. split; [|reflexivity]. right. split; [reflexivity|]. destruct spec as [[|z sp]|]; try discriminate Hm; split; try exact Hm; reflexivity.
+    - (* Dict *) destruct cs as [|c cs]; injection Ep as <- <- <-.
+      + split; [left; reflexivity|reflexivity].
+      + split; [right; split; [reflexivity|split; reflexivity]|reflexivity].
+    - (* Set *) injection Ep as <- <- <-. split; [right; split; [reflexivity|split; [exact Hm|reflexivity]]|reflexivity].
+    - discriminate Hm. }
   destruct Hpost as [[He|[He [Hc Hh]]] Hr]; subst.
   - auto.
   - rewrite Hc, Hh, Kids. auto.
